@@ -107,6 +107,7 @@ func Drive(o DriveOpts) int {
 	var viols []Violation
 	var inconcl, notes []string
 	crashes, timeouts := 0, 0
+	workerFault := false
 	var races []raceBlock
 	for _, r := range results {
 		if r == nil {
@@ -138,6 +139,11 @@ func Drive(o DriveOpts) int {
 		inconcl = append(inconcl, r.inconcl...)
 		notes = append(notes, r.notes...)
 		notes = append(notes, r.exitNotes...)
+		for _, n := range r.exitNotes {
+			// a worker that dies outside a journaled case is a fault of the harness itself
+			fmt.Println("HARNESS-FAULT:", trimTo(n, 1500))
+			workerFault = true
+		}
 		crashes += r.crashes
 		if r.timedOut {
 			timeouts++
@@ -312,6 +318,9 @@ func Drive(o DriveOpts) int {
 	}
 	if harnessFault {
 		fmt.Println("HARNESS-FAULT: race report entirely inside the harness")
+		return 2
+	}
+	if workerFault {
 		return 2
 	}
 	if noObs {
